@@ -2,13 +2,14 @@ import OpcuaVerif.Common
 import OpcuaVerif.Model.C12
 import OpcuaVerif.Model.C12Client
 import OpcuaVerif.Drv.C11
+import OpcuaVerif.Drv.SrvConn
 
 namespace OpcuaVerif.C12
 open OpcuaVerif.C11
 
 inductive DState where
   | idle
-  | srv (s : Option Srv)                 -- `none` until `open`
+  | conn (c : SrvConn.Conn)
   | tx (st : C11.DState)
   | mw (c : Chan) (client : Bool) (s : MW)
   | cli (s : Cli)
@@ -27,8 +28,6 @@ def showV : VOut → String
   | .ok l => s!"ok {l}"
   | .err e => s!"err {e}"
   | .panic => "panic"
-
-def srvTail (s : Srv) : String := s!"last={s.last} pend={s.pending.length}"
 
 def cliTail (s : Cli) : String :=
   let ps := s.states.map fun p => s!"{p.1}:{p.2.length}"
@@ -68,7 +67,9 @@ def dstep (st : DState) (toks : List String) : DState × String :=
         | (s', .closed) => (.cli s', "err closed")
         | (s', o) => (.cli s', showCOut o ++ " " ++ cliTail s')
     | _, _ => (st, "bad-op")
-  | ["reset", "srv"] => (.srv none, "ok")
+  | "reset" :: "conn" :: _ =>
+    match SrvConn.dstep SrvConn.conn0 toks with
+    | (c', o) => (.conn c', o)
   | "reset" :: "tx" :: _ =>
     match C11.dstep .idle toks with
     | (s', o) => (.tx s', o)
@@ -82,29 +83,6 @@ def dstep (st : DState) (toks : List String) : DState × String :=
     match start.toNat?, chan.toNat?, parseCIList? l with
     | some start, some chan, some cs => (st, showV (validateChunks start chan cs))
     | _, _, _ => (st, "bad-op")
-  | ["open"] =>
-    match st with
-    | .srv none => (.srv (some { chanId := 1, last := 1, pending := [], closed := false }), "ok chan=1 last=1")
-    | _ => (st, "bad-op")
-  | ["setlast", n] =>
-    match st, n.toNat? with
-    | .srv (some s), some n => (.srv (some { s with last := n }), "ok")
-    | _, _ => (st, "bad-op")
-  | ["chunk", ci, f] =>
-    match st, parseCI? ci with
-    | .srv (some s), some (some c) =>
-      let fin : Option Fin := if f = "F" then some .final else if f = "C" then some .intermediate
-        else if f = "A" then some .abort else none
-      match fin with
-      | none => (st, "bad-op")
-      | some fin =>
-        match s.chunk c fin with
-        | (s', .stored) => (.srv (some s'), s!"ok stored {srvTail s'}")
-        | (s', .accepted r) => (.srv (some s'), s!"ok accepted req={r} {srvTail s'}")
-        | (s', .rejected e) => (.srv (some s'), s!"err {e}")
-        | (s', .closed) => (.srv (some s'), "err closed")
-        | (_, .panic) => (st, "panic")
-    | _, _ => (st, "bad-op")
   | ["setctr", a, b] =>
     match st, a.toNat?, b.toNat? with
     | .tx (.tx c cl s), some a, some b => (.tx (.tx c cl { s with lastReq := a, lastSeq := b }), "ok")
@@ -134,6 +112,9 @@ def dstep (st : DState) (toks : List String) : DState × String :=
     | .tx s =>
       match C11.dstep s toks with
       | (s', o) => (.tx s', o)
+    | .conn c =>
+      match SrvConn.dstep c toks with
+      | (c', o) => (.conn c', o)
     | _ => (st, "bad-op")
 
 def driver : Driver := { σ := DState, init := .idle, step := dstep }
